@@ -153,7 +153,7 @@ def gen_traces(prop, tier, sd):
     def rnd(k):
         path = os.path.join(wd, "r%d.json" % k)
         run_driver("sm_driver.py", ["--out", path, "--seed", sd * 1000 + k, "--n", per, "--len", p["length"],
-                                    "--auto", "1" if auto else "0", "--first-id", 1 + k * per])
+                                    "--auto", "1" if auto else ("0" if prop == "C01" else "some"), "--first-id", 1 + k * per])
         return json.load(open(path))
 
     def sim():
